@@ -157,7 +157,9 @@ def plan(spec, tier):
         nested_sparse = any(n["t"] == "SparselyBin" and n["v"]["t"] not in S.LEAF_TYPES for _, _, n in S.node_ids(spec))
         return {"cap": 5 if d <= 2 else 4, "n": 2, "pieces": 2, "full1": True, "reps": ["rec", "dict"] if nested_sparse else ["rec"]}
     if d <= 2:
-        reps = ["rec", "dict"] + (["df"] if "v" not in S.fields(spec) else [])
+        # (a DataFrame only where no string column is read: with pandas 3 the str dtype hands the library an Arrow-backed
+        # array instead of a numpy one - the environment limitation C14's statement names; vectors do not fit a column)
+        reps = ["rec", "dict"] + (["df"] if not (S.fields(spec) & {"v", "c", "b"}) else [])
         return {"cap": 5, "n": 3, "pieces": 3, "full1": True, "reps": reps}
     return {"cap": 5, "n": 2, "pieces": 3, "full1": True, "reps": ["rec"]}
 
